@@ -46,6 +46,8 @@ def run(chk, repo):
         'C11.d pointer-dict cache: bookkeeping only after a successful load; eviction and insertion are pairwise',
         'C11.e GTF and index writers/readers agree on offsets, symbols, keys and column order',
         'C11.f on-disk and in-memory transcript models are built through the same steps',
+        'C11.h every feature list of a transcript model is sorted after its last producer (so the model is independent of the record order of the GTF); '
+        'index offsets are byte counts of the raw lines',
     ]
     chk.not_decided = ['transcript<->genomic inverse through the exon loops', 'sequence extraction and CDS/Sec inference']
     S, E, X = Aff.sym('S'), Aff.sym('E'), Aff.sym('index')
@@ -290,6 +292,51 @@ def run(chk, repo):
     chk.ob('C11.g', 'get_cds_end_index: 3\'UTR piece adjacent to the CDS = first piece on +, last piece on -', ce.where, ok,
            f"{detail}: features are sorted by genomic coordinate, so the piece next to the CDS on the - strand is the LAST one; otherwise the ORF end lands inside the 3'UTR",
            key=ce.qual + '::strand-mirror', fn=ce.qual)
+
+    # ------------------------------------------------------------------ h
+    chk.rule('C11.h', 'R-ENUM + R-ORDER: every feature list is sorted after its last producer; byte offsets of the GTF index', 9)
+    TM = 'gtf.TranscriptAnnotationModel:'
+    ft = repo.const('gtf.TranscriptAnnotationModel', 'GTF_FEATURE_TYPES')
+    attrs = sorted({ast.literal_eval(v) for k, v in zip(ft.keys, ft.values) if ast.literal_eval(k) != 'transcript'})
+    sr = repo.func(TM + 'TranscriptAnnotationModel.sort_records')
+    chk.uses(sr)
+    body = sr.node.body
+    order = {}
+    helpers = {}
+    for i, st in enumerate(body):
+        if isinstance(st, ast.Expr) and isinstance(st.value, ast.Call) and isinstance(st.value.func, ast.Attribute):
+            fn_ = st.value.func
+            if fn_.attr == 'sort' and isinstance(fn_.value, ast.Attribute) and unparse(fn_.value.value) == 'self':
+                order.setdefault(fn_.value.attr, []).append(i)
+            elif unparse(fn_.value) == 'self':
+                helpers[fn_.attr] = i
+    # lists a helper called from sort_records appends to, and lists it reads by position
+    produced = {}
+    needs_sorted = {}
+    for h, i in helpers.items():
+        hf = repo.func(TM + 'TranscriptAnnotationModel.' + h)
+        chk.uses(hf)
+        for c in G.find_calls(hf.node, 'append'):
+            if isinstance(c.func.value, ast.Attribute) and unparse(c.func.value.value) == 'self':
+                produced.setdefault(c.func.value.attr, []).append((h, i))
+        for n in ast.walk(hf.node):
+            if isinstance(n, ast.Subscript) and isinstance(n.value, ast.Attribute) and unparse(n.value.value) == 'self' \
+                    and isinstance(n.slice, (ast.Constant, ast.UnaryOp)):
+                needs_sorted.setdefault(n.value.attr, []).append((h, i))
+    for a in attrs:
+        last_prod = max([i for (_h, i) in produced.get(a, [])], default=-1)
+        ok = a in order and max(order[a]) > last_prod
+        chk.ob('C11.h', f"self.{a} is sorted in sort_records" + (f" after {produced[a][0][0]}() appended to it" if a in produced else ''), sr.where, ok,
+               f"self.{a} is " + ('not sorted at all' if a not in order else f"sorted before {produced.get(a, [('?', 0)])[0][0]}() appends to it") +
+               ": consumers index these lists by position (e.g. three_utr[0] / three_utr[-1] next to the CDS), so the model depends on the record order of the "
+               "GTF (Ensembl lists - strand records in descending order) and the ORF end moves into the 3'UTR", key=f"{sr.qual}::sorted::{a}", fn=sr.qual)
+    for a, us in needs_sorted.items():
+        for (h, i) in us:
+            ok = a in order and min(order[a]) < i
+            chk.ob('C11.h', f"self.{a} is sorted before {h}() reads it by position", sr.where, ok,
+                   f"{h}() indexes self.{a} by position but runs before self.{a}.sort()", key=f"{sr.qual}::sorted-before::{h}::{a}", fn=sr.qual)
+    from rules.C13 import byte_offsets
+    byte_offsets(chk, repo, 'C11.h', 'gtf.GTFPointer:iterate_pointer')
 
 
 def cache_typestate(chk, repo, rid):
